@@ -13,20 +13,22 @@ smooth upsampling); output dimensions are ceil(dim x M/8); a skip is honoured ex
 unless it would pass the bottom, where it stops at the last row; an invalid region is
 rejected.
 
-Proved here: the dimension formula for all 16 regenerated factors, the crop-window
-arithmetic, the skip return value, the region validation, and - for the decoder configurations
-that need no context rows and use the separate upsampler (no fancy upsampling of vertically
-subsampled chroma, no merged upsampling, no colour quantisation) - the read/skip state machine of
-jdapistd.c / jdmainct.c / jdsample.c itself (Model/SkipSM.lean, tied counter by counter to the
-real structures after every call by the `skipst` operation): after *any* history of read(n) and
-skip(n) calls, every delivered row is the row group and row of the iMCU row that its scanline
-number names, so two histories - in particular a partial one and a full decode - deliver rows of
-the same provenance at the same scanline (`histories_agree_on_every_scanline`).  That a row's
-pixels are a function of its provenance (entropy decoding of skipped iMCU rows keeps the coder
-state; IDCT, upsampling of one row group and colour conversion read nothing else) is outside this
-model and rests on the `skiphist` oracle, as do the context-row and merged-upsampling machines
-and the horizontal crop: for those the pixel clause is decided by the oracle on the real decoder
-only (known_findings.json D15..D19, D39, D43 were found there or here; D16 stays open).
+Proved here: the dimension formula for all 16 regenerated factors, the crop-window arithmetic, the
+skip return value, the region validation, and the read/skip state machines of jdapistd.c /
+jdmainct.c / jdsample.c / jdmerge.c themselves, in all three configurations of the decoder
+(Model/SkipSM.lean: simple main controller + separate upsampler; Model/MergedSM.lean: merged
+upsampler with its spare row; Model/CtxSM.lean: context-row main controller with its postponed row
+group) - each tied counter by counter to the real structures after every call by the `skipst`
+operation: after *any* history of read(n) and skip(n) calls, every delivered row is (computed from)
+the row group and row of the iMCU row that its scanline number names, so two histories - in
+particular a partial one and a full decode - deliver rows of the same provenance at the same
+scanline.  For the merged 2:1 machine this holds for the histories that avoid known finding D16,
+and D16 itself is a kernel-evaluated theorem about the tied model.  That a row's pixels are a
+function of its provenance (entropy decoding of skipped iMCU rows keeps the coder state; IDCT,
+upsampling and colour conversion read nothing else - for the context machine: which neighbouring
+row groups are read) is outside the models and rests on the `skiphist` / `quanthist` / `smoothhist`
+oracles, as does the horizontal crop (known_findings.json D15..D19, D39, D43, D44 were found there
+or by these proofs; D16 stays open).
 -/
 namespace LJT.C08
 open LJT.DecompCtl LJT.Gen
@@ -245,6 +247,27 @@ theorem context_rows_are_where_they_belong (c : Cfg) (hM : 2 ≤ c.M) (hv : 0 < 
   intro ip hip
   obtain ⟨h1, h2, h3, _, h5⟩ := (crun_spec c hM hv calls (cinit c) (cinit_inv c (by omega) hv)).2 ip hip
   exact ⟨h1, h2, h3, h5⟩
+
+open LJT.Skip in
+/-- a partial decode and a full decode through the context-row machine agree on the provenance of every scanline -/
+theorem context_histories_agree_on_every_scanline (c : Cfg) (hM : 2 ≤ c.M) (hv : 0 < c.v) (h1 h2 : List Call)
+    (i : Nat) (p1 p2 : Prov) (m1 : (i, p1) ∈ (crun c (cinit c) h1).2) (m2 : (i, p2) ∈ (crun c (cinit c) h2).2) : p1 = p2 := by
+  obtain ⟨a1, a2, a3, _⟩ := context_rows_are_where_they_belong c hM hv h1 _ m1
+  obtain ⟨b1, b2, b3, _⟩ := context_rows_are_where_they_belong c hM hv h2 _ m2
+  obtain ⟨x, y, z⟩ := p1
+  obtain ⟨x', y', z'⟩ := p2
+  obtain ⟨e1, e2, e3⟩ := lineOf_unique c x y z x' y' z' a1 a2 b1 b2 (by
+    show Prov.line c (x, y, z) = Prov.line c (x', y', z')
+    rw [a3, b3])
+  subst e1; subst e2; subst e3; rfl
+
+open LJT.Skip in
+/-- a full decode through the context-row machine delivers every row once, in order -/
+theorem context_full_decode_delivers_every_row (c : Cfg) (hM : 2 ≤ c.M) (hv : 0 < c.v) :
+    (crun c (cinit c) (List.replicate c.H (.rd 1))).2.map (·.1) = List.range c.H := by
+  have := (cfull_decode_gen c hM hv c.H (cinit c) (cinit_inv c (by omega) hv) (by simp [cinit])).1
+  rw [this, List.range_eq_range']
+  rfl
 
 open LJT.Skip in
 /-- a skip is honoured exactly by the context-row machine too, after any history -/
